@@ -16,7 +16,11 @@ sys.path.insert(0, os.path.dirname(os.path.abspath(__file__)))
 import refcheck  # noqa: E402
 
 VERIF = os.path.dirname(os.path.dirname(os.path.abspath(__file__)))
-TARGET = os.path.join(VERIF, 'build', 'replay-target')
+REPO = os.environ.get('VERIF_REPO', '/repo')
+# VERIF_SLOT: private build directories, so that a second tree (VERIF_REPO=<clone>) can be checked while /repo is in use
+SLOT = os.environ.get('VERIF_SLOT', '')
+SFX = ('-' + SLOT) if SLOT else ''
+TARGET = os.path.join(VERIF, 'build', 'replay-target' + SFX)
 BIN = os.path.join(TARGET, 'release', 'vfreplay')
 MUTS = ['bitflip', 'boundary', 'offbyone', 'stringlen', 'character', 'memoindex', 'typeconfusion']
 
@@ -24,15 +28,27 @@ MUTS = ['bitflip', 'boundary', 'offbyone', 'stringlen', 'character', 'memoindex'
 def build():
     """(Re)build vfgen against /repo's current working tree."""
     env = dict(os.environ, CARGO_NET_OFFLINE='true', CARGO_TARGET_DIR=TARGET)
-    lock = os.path.join(VERIF, 'replay', 'Cargo.lock')
-    p = subprocess.run(['cargo', 'build', '--release', '--offline', '--quiet'], cwd=os.path.join(VERIF, 'replay'),
+    crate = os.path.join(VERIF, 'replay')
+    if REPO != '/repo':
+        # same driver source, dependency path pointing at the other tree
+        import shutil
+        crate = os.path.join(VERIF, 'build', 'replay-crate' + SFX)
+        shutil.rmtree(crate, ignore_errors=True)
+        os.makedirs(os.path.join(crate, 'src'))
+        shutil.copy(os.path.join(VERIF, 'replay', 'src', 'main.rs'), os.path.join(crate, 'src', 'main.rs'))
+        open(os.path.join(crate, 'Cargo.toml'), 'w').write(
+            open(os.path.join(VERIF, 'replay', 'Cargo.toml')).read().replace('path = "/repo"', 'path = "%s"' % REPO))
+        lk = os.path.join(VERIF, 'replay', 'Cargo.lock')
+        if os.path.exists(lk):
+            shutil.copy(lk, os.path.join(crate, 'Cargo.lock'))
+    p = subprocess.run(['cargo', 'build', '--release', '--offline', '--quiet'], cwd=crate,
                        env=env, capture_output=True, text=True)
     if p.returncode != 0:
         raise RuntimeError('vfreplay build failed: ' + p.stderr[-2000:])
     return BIN
 
 
-CLI_TARGET = os.path.join(VERIF, 'build', 'cli-target')
+CLI_TARGET = os.path.join(VERIF, 'build', 'cli-target' + SFX)
 
 
 def cli_flag_check(quick=True):
@@ -42,12 +58,12 @@ def cli_flag_check(quick=True):
     import pickletools
     import shutil
     env = dict(os.environ, CARGO_NET_OFFLINE='true')
-    p = subprocess.run(['cargo', 'build', '--release', '--offline', '--quiet', '--manifest-path', '/repo/Cargo.toml',
+    p = subprocess.run(['cargo', 'build', '--release', '--offline', '--quiet', '--manifest-path', os.path.join(REPO, 'Cargo.toml'),
                         '--bin', 'pickle-fuzzer', '--target-dir', CLI_TARGET], env=env, capture_output=True, text=True)
     if p.returncode != 0:
         raise RuntimeError('CLI build failed: ' + p.stderr[-1500:])
     exe = os.path.join(CLI_TARGET, 'release', 'pickle-fuzzer')
-    out = os.path.join(VERIF, 'build', 'cli-out')
+    out = os.path.join(VERIF, 'build', 'cli-out' + SFX)
     shutil.rmtree(out, ignore_errors=True)
     os.makedirs(out)
     EXT = {'EXT1', 'EXT2', 'EXT4'}
@@ -257,6 +273,11 @@ def grid(prop, quick, seed=0):
     for P in range(6):
         for sd in range(120 if quick else 1500):
             jobs.append('P=%d seed=%d min=150 max=400' % (P, sd))
+    # generator reuse is a dimension of every byte-level property: the LAST output of a short call history is checked
+    for P in range(6):
+        for sd in range(6 if quick else 40):
+            jobs.append('P=%d seed=%d calls=seed;seed' % (P, sd))
+            jobs.append('P=%d seed=%d min=5 max=40 mut=%s rate=0.3 calls=hex:0102;seed;hex:ff' % (P, sd, ','.join(MUTS[:5])))
     # text-argument hazards: a safe string mutator at rate 1 on many medium-sized pickles (a control character or
     # quote reaching a text opcode derails the decode only for particular replacement bytes)
     for P in range(6):
@@ -356,7 +377,7 @@ def find(prop, quick=True, seed=0, limit=None):
     jobs = grid(prop, quick, seed)
     if limit and len(jobs) > limit:
         # the few hand-placed corner jobs (very long pickles, inverted ranges, long-then-again) are always kept
-        special = [j for j in jobs if any(t in j for t in ('min=4000 ', 'min=8000 ', 'min=100 max=0'))][:60]
+        special = [j for j in jobs if any(t in j for t in ('min=4000 ', 'min=8000 ', 'min=100 max=0', 'calls=seed;seed'))][:90]
         rest = [j for j in jobs if j not in set(special)]
         random.Random(seed).shuffle(rest)
         jobs = special + rest[:max(0, limit - len(special))]
